@@ -499,6 +499,17 @@ impl<'a> Parser<'a> {
         let type_parameters = self.parse_optional_type_parameters()?;
         let params: Rc<[_]> = self.parse_function_params()?.into();
         let return_type = self.parse_optional_return_type()?;
+
+        if id.is_some() && !self.check(&TokenKind::LBrace) {
+            // Overload signature `function f(a: number): number;` - the implementation
+            // (or a further signature) of the same function follows
+            self.expect_semicolon()?;
+            self.match_token(&TokenKind::Export);
+            self.match_token(&TokenKind::Async);
+            self.require_token(&TokenKind::Function)?;
+            return self.parse_function_declaration_inner();
+        }
+
         let body = Rc::new(self.parse_block_statement()?);
 
         let span = self.span_from(start);
@@ -685,7 +696,10 @@ impl<'a> Parser<'a> {
                 continue;
             }
 
-            members.push(self.parse_class_member()?);
+            // Members that are pure declarations (overload signatures) yield nothing
+            if let Some(member) = self.parse_class_member()? {
+                members.push(member);
+            }
         }
 
         self.require_token(&TokenKind::RBrace)?;
@@ -694,7 +708,8 @@ impl<'a> Parser<'a> {
         Ok(ClassBody { members, span })
     }
 
-    fn parse_class_member(&mut self) -> Result<ClassMember, JsError> {
+    /// Parse one class member; `None` for a member that only declares (an overload signature)
+    fn parse_class_member(&mut self) -> Result<Option<ClassMember>, JsError> {
         let start = self.current.span;
 
         // Parse decorators first
@@ -705,7 +720,7 @@ impl<'a> Parser<'a> {
         // Check for static initialization block: static { ... }
         if static_ && self.check(&TokenKind::LBrace) {
             let block = self.parse_block_statement()?;
-            return Ok(ClassMember::StaticBlock(block));
+            return Ok(Some(ClassMember::StaticBlock(block)));
         }
 
         // Parse abstract modifier (TypeScript)
@@ -725,14 +740,19 @@ impl<'a> Parser<'a> {
         if !static_ && self.check_keyword("constructor") {
             self.advance();
             let params = self.parse_function_params()?;
+            if !self.check(&TokenKind::LBrace) {
+                // Constructor overload signature: `constructor(a: number);`
+                self.expect_semicolon()?;
+                return Ok(None);
+            }
             let body = self.parse_block_statement()?;
             let span = self.span_from(start);
-            return Ok(ClassMember::Constructor(Box::new(ClassConstructor {
+            return Ok(Some(ClassMember::Constructor(Box::new(ClassConstructor {
                 params,
                 body,
                 accessibility,
                 span,
-            })));
+            }))));
         }
 
         // Check for getter/setter
@@ -754,6 +774,12 @@ impl<'a> Parser<'a> {
             let type_params = self.parse_optional_type_parameters()?;
             let params: Rc<[_]> = self.parse_function_params()?.into();
             let return_type = self.parse_optional_return_type()?;
+
+            if !is_abstract && !self.check(&TokenKind::LBrace) {
+                // Method overload signature: `run(a: number): number;`
+                self.expect_semicolon()?;
+                return Ok(None);
+            }
 
             // Abstract methods have no body - just a semicolon
             let body = if is_abstract {
@@ -779,7 +805,7 @@ impl<'a> Parser<'a> {
             };
 
             let span = self.span_from(start);
-            Ok(ClassMember::Method(Box::new(ClassMethod {
+            Ok(Some(ClassMember::Method(Box::new(ClassMethod {
                 key,
                 value,
                 kind: method_kind,
@@ -788,7 +814,7 @@ impl<'a> Parser<'a> {
                 accessibility,
                 decorators,
                 span,
-            })))
+            }))))
         } else {
             // Property
             let optional = self.match_token(&TokenKind::Question);
@@ -807,7 +833,7 @@ impl<'a> Parser<'a> {
             self.expect_semicolon()?;
 
             let span = self.span_from(start);
-            Ok(ClassMember::Property(Box::new(ClassProperty {
+            Ok(Some(ClassMember::Property(Box::new(ClassProperty {
                 key,
                 value,
                 type_annotation,
@@ -819,7 +845,7 @@ impl<'a> Parser<'a> {
                 accessibility,
                 decorators,
                 span,
-            })))
+            }))))
         }
     }
 
